@@ -365,8 +365,8 @@ def plan_c12(tier, seed):
     else:
         shapes, sizes = [(), (1,), (2,), (3,), (1, 2), (2, 2)], [1, 2, 3]
         sigs = list(G.signatures(shapes, sizes, max_reals=3, max_ints=2, max_dim=9))
-        sig_stride, step_stride = 10, 2
-        chain_depth, chain_units, chain_count = 3, 160, 150
+        sig_stride, step_stride = 14, 3
+        chain_depth, chain_units, chain_count = 3, 100, 150
     bounds.update(
         real_input_shapes=[list(s) for s in shapes], batch_sizes=sizes, max_real_inputs=3, max_batch_inputs=2,
         signatures_in_space=len(sigs), signature_stride=sig_stride, step_stride=step_stride,
@@ -473,7 +473,13 @@ def run(prop_id, tier="quick", seed=0, jobs=16):
     if jobs > 1:
         ctx = multiprocessing.get_context("fork")
         with ctx.Pool(jobs, initializer=_limit_blas_threads) as pool:
-            parts = pool.map(_run_unit, units, chunksize=1)
+            parts = []
+            t_last = time.time()
+            for k, p in enumerate(pool.imap(_run_unit, units, chunksize=1)):
+                parts.append(p)
+                if os.environ.get("RTC_PROGRESS") and time.time() - t_last > 30:
+                    t_last = time.time()
+                    print("[drv_gauss %s %s] %d/%d units, %.0fs" % (prop_id, tier, k + 1, len(units), time.time() - res.t0), file=sys.stderr, flush=True)
     else:
         parts = [_run_unit(u) for u in units]
     for p in parts:
